@@ -79,7 +79,8 @@ class IxWorld(object):
             self.st = TracingFileStorage(self.dir, log=self.log)
         self.schema = fields.Schema(key=fields.ID(stored=True, unique=True),
                                     uid=fields.NUMERIC(stored=True, unique=True),
-                                    body=fields.TEXT(sortable=sortable), n=fields.NUMERIC(sortable=sortable))
+                                    body=fields.TEXT(sortable=sortable), n=fields.NUMERIC(sortable=sortable),
+                                    tags=fields.KEYWORD(stored=True))
         self.ix = self.st.create_index(self.schema)
         self.log.events = []           # the trace starts from the freshly created index
         self.compound = compound
@@ -160,6 +161,22 @@ class IxWorld(object):
                 for dn in s.docs_for_query(query.Term("key", k)):
                     bykey.append(s.stored_fields(dn)["key"])
             views.append(bykey)
+            # multi-keyword lookups: intersections advance their term matchers with skip_to()
+            views.append([d["key"] for k in sorted(set(docs)) for d in s.documents(key=k, body=u"xx")])
+            views.append([h["key"] for h in s.search(query.And([query.Term("body", u"xx"), query.Every("key")]),
+                                                     limit=None)])
+            views.append([h["key"] for k in sorted(set(docs))
+                          for h in s.search(query.Require(query.Term("body", u"xx"), query.Term("key", k)), limit=None)])
+            # conjunctions of sparse shared terms (superseded versions carry them too): what the search
+            # returns must be what the stored fields of the visible documents say
+            live = list(s.documents())
+            for ta, tb in ((u"ta", u"tb"), (u"tb", u"tc"), (u"ta", u"tc")):
+                got = sorted(h["key"] for h in s.search(query.And([query.Term("tags", ta), query.Term("tags", tb)]),
+                                                        limit=None))
+                want = sorted(d["key"] for d in live if ta in d.get("tags", u"").split()
+                              and tb in d.get("tags", u"").split())
+                if got != want:
+                    n = -1
             if rd.doc_count() != len(docs) or rd.doc_count_all() < len(docs) \
                     or rd.has_deletions() != (rd.doc_count_all() != rd.doc_count()):
                 n = -1
